@@ -44,7 +44,7 @@ func init() {
 
 func init() {
 	Props["C12"] = PropInfo{
-		Explanation: "ERR-1/ERR-2 enumerate every error-returning call and every error test in the API-reachable functions of db, the root package and the driver, and decide by SSA value-flow (locals, captured cells, struct fields, fmt.Errorf) and path enumeration that no error value is dropped or tested-and-swallowed; SKIP-1 decides that no scan adapter of the root package can return `continue` without having delivered the row or recorded an error. ERR-5 (path-sensitive): an error that may be non-nil is never merely compared and replaced by nil; CACHE-2: a page that failed to parse is not cached. DRV-5: a short read never surfaces as a bare io.EOF through database/sql.",
+		Explanation: "ERR-1/ERR-2 enumerate every error-returning call and every error test in the API-reachable functions of db, the root package and the driver, and decide by SSA value-flow (locals, captured cells, struct fields, fmt.Errorf) and path enumeration that no error value is dropped or tested-and-swallowed; SKIP-1 decides that no scan adapter of the root package can return `continue` without having delivered the row or recorded an error. ERR-5 (path-sensitive): an error that may be non-nil is never merely compared and replaced by nil; CACHE-2: a page that failed to parse is not cached. DRV-5: a short read never surfaces as a bare io.EOF through database/sql. ERR-6: the owner of a captured error cell (sort.Search predicates, row adapters) reports success only after it has looked at the cell.",
 		NotDecided:  "That every failure produces an error value in the first place (e.g. a short read that happens to parse); the rules show that no code path loses an error value that exists.",
 	}
 	Props["C17"] = PropInfo{
